@@ -107,18 +107,25 @@ example : ∀ F, 90 ≤ F → ∃ s',
     (Nat.le_trans (by decide) hF)
   exact ⟨s', hr, hs'⟩
 
-/-! ## the whole skeleton: comma, assignment, `?:`, binary levels, parentheses -/
+/-! ## the whole expression grammar above type names -/
 open PycModel.FullExpr in
-/-- **The expression skeleton parses exactly as the C grammar derives it** (6.5.5-6.5.17): for
-every expression `e` of `X ::= identifier | ( X ) | X binop X | X ? X : X | X assign-op X | X , X`,
-of any size and nesting, that is derivable at the comma level (`WFX 0 e`: binary operators by
-their ten levels and to the left, `?:` and assignment to the right, a full comma expression between
-`?` and `:`, comma loosest), from every parser state that sees its tokens followed by a token that
-cannot continue an expression, `_parse_expression` returns `e.val` (`BinaryOp` / `TernaryOp` /
-`Assignment` / `ExprList` nodes nested as derived, comma operands flattened into one `ExprList`,
-parentheses transparent) and consumes exactly the tokens of `e`; fuel `<= 13 * tokens`.
+/-- **Expressions parse exactly as the C grammar derives them** (6.5.1-6.5.17): for every
+expression `e` of
+`X ::= identifier | constant | ( X ) | X ++ | X -- | X [ X ] | X . name | X -> name | X ( ) | X ( X , ... ) |
+       ++ X | -- X | & X | * X | + X | - X | ~ X | ! X | sizeof X | X binop X | X ? X : X | X assign-op X | X , X`,
+of any size and nesting, that is derivable at the comma level (`WFX 0 e`: postfix operators bind
+tightest and apply left to right, prefix operators and `sizeof` apply to a unary expression,
+binary operators group by their ten levels and to the left, `?:` and assignment to the right with
+a unary expression left of `=`, a full comma expression between `?` and `:`, comma loosest), from
+every parser state that sees its tokens followed by a token that cannot continue an expression,
+`_parse_expression` returns `e.val` (`UnaryOp` / `ArrayRef` / `StructRef` / `FuncCall` / `BinaryOp` /
+`TernaryOp` / `Assignment` / `ExprList` nodes nested as derived, postfix `++` spelled `p++`, comma
+operands and call arguments flattened into one `ExprList`, parentheses transparent) and consumes
+exactly the tokens of `e`; fuel `<= 13 * tokens`.
 Nothing is assumed about the parser: `peek`/`advance`/`reset` behave as a token stream by
-`Proofs/TokenView.lean`, every production on the way is executed symbolically. -/
+`Proofs/TokenView.lean`, every production on the way is executed symbolically.  Not covered:
+everything that contains a type name (casts, `sizeof(type)`, compound literals, `_Alignof`,
+`offsetof`) and string literals. -/
 theorem expression_skeleton_parses_as_the_grammar_says (e : X) (hwf : WFX 0 e) (s : PState)
     (stop : Tk) (rest : List Tk) (hstop : StopX stop.1) (hs : SeesT s (e.flat ++ stop :: rest))
     (F : Nat) (hF : 13 * e.ntoks ≤ F) :
